@@ -357,6 +357,9 @@ class Instance:
             if hasattr(self, "_value") and hasattr(other, "_value"):
                 if self._value == other._value:
                     return True
+            elif not hasattr(self, "_value") and not hasattr(other, "_value"):
+                # Instance bytes without a number (broadcast, device, ...)
+                return True
 
         return False
 
